@@ -86,10 +86,26 @@ class C08(AstKindProp):
             return [{"what": "second and third emission differ", "kind": c["kind"], "second": t[1][:1200], "third": t[2][:1200]}]
         return []
 
+    def code_breaks(self, c, is_return, typ, code):
+        from ..astkinds import code_breaks_stability
+
+        return code_breaks_stability(c["kind"], is_return, typ, code, c["opts"].get("emit_default_doc", True))
+
     def classify(self, c, fl):
         k = c["kind"]
         if k in ("rest", "numpydoc", "google"):
-            return classify_doc_ir(c["ir"], k, c["opts"].get("emit_default_doc", True))
+            from ..astkinds import code_breaks_stability, is_code
+
+            edd = c["opts"].get("emit_default_doc", True)
+            ir = copy.deepcopy(c["ir"])
+            ents = [(False, p) for _, p in ir["params"]] + ([(True, ir["returns"])] if ir["returns"] else [])
+            for r, p in ents:
+                if is_code(p.get("default")):
+                    if code_breaks_stability(k, r, p.get("typ"), p["default"]["v"], edd):
+                        return "C17-code-default-unquoted"
+                    p["default"] = {"t": "int", "v": "1"}  # harmless here: look for the other classes
+            f = classify_doc_ir(ir, k, edd)
+            return f
         helper = {"class": C02, "function": C03, "method": C03, "argparse": C04}[k]
         base = AstKindProp.classify(self, c, fl)
         if base:
